@@ -144,6 +144,10 @@ func unmarshalFile(file string, bs []byte, v interface{}) error {
 	if dec.More() {
 		return errcode.InvalidArgf("expect EOF, got more")
 	}
+	// Reading up to EOF may have found lexing errors after the value.
+	if errs := dec.p.Errs(); errs != nil {
+		return errs[0]
+	}
 	return nil
 }
 
